@@ -194,8 +194,9 @@ func pruneCache(keep string) {
 		es = append(es, ent{p, fi.ModTime()})
 	}
 	sort.Slice(es, func(i, j int) bool { return es[i].t.After(es[j].t) })
+	// a batch that is still running may be using an older build: recent ones stay
 	for i, e := range es {
-		if i >= 5 {
+		if (i >= 5 && time.Since(e.t) > 3*time.Hour) || i >= 40 {
 			os.RemoveAll(e.p)
 		}
 	}
